@@ -146,6 +146,6 @@ func init() {
 				}
 			}
 		}
-		return global.GroupSet.VerifDumpGroups(q) + "#" + q.VerifSelectSpec() + "#" + q.VerifDump()
+		return global.GroupSet.VerifDumpGroups(q) + "@rows=" + global.GroupSet.VerifRows(q) + "#" + q.VerifSelectSpec() + "#" + q.VerifDump()
 	}
 }
